@@ -98,6 +98,7 @@ func c15RunnerProbe(o *Out, rng *RNG, rounds int) {
 		Runner    pipservices.Runner           `dependency:"PipRunner"`
 		TasksUnit pipservices.TasksUnit        `dependency:"PipTasksUnit"`
 		Manager   pipservices.SandboxesManager `dependency:"PipSandboxesManager"`
+		Mutex     commservices.SharedMutex     `dependency:"CommonSharedMutex"`
 	}
 	must(mapp.DependencyProvider().InjectTo(&deps))
 	log := &c15RunLog{}
@@ -133,20 +134,45 @@ func c15RunnerProbe(o *Out, rng *RNG, rounds int) {
 		}
 		desc := map[string]interface{}{"op": "runner-locks", "maps": mapsDesc}
 		subErr := ""
+		// wait lists: a task may wait for earlier tasks (waiting happens BEFORE the locks are taken:
+		// a task that held its locks while waiting for another one that needs them would never run).
+		// Every third round forces the critical order: an outside holder keeps "0" while t0 (which
+		// names "0" and x) and t1 (x, waits for t0) are submitted, and lets go afterwards.
+		waits := make([][]string, n)
+		var outside commservices.UnlockHandler
+		if round%3 == 0 {
+			outside = deps.Mutex.Lock(commservices.LockMap{"0": commservices.LockRW})
+			maps[0] = commservices.LockMap{"0": commservices.LockRW, "a": commservices.LockRW}
+			maps[1] = commservices.LockMap{"a": commservices.LockRW}
+			waits[1] = []string{"t0"}
+			mapsDesc[0], mapsDesc[1] = descRows(c15Rows(maps[0])), descRows(c15Rows(maps[1]))
+		}
+		for i := 1; i < n; i++ {
+			for j := 0; j < i; j++ {
+				if rng.Chance(25) {
+					waits[i] = append(waits[i], fmt.Sprintf("t%d", j))
+				}
+			}
+		}
+		desc["waits"] = waits
 		for i := range maps {
 			if err := deps.Runner.Run(pipservices.Pip{
 				Context: pipservices.PipContext{In: gio.NewInput(strings.NewReader("")), Out: gio.NewNilOutput(), Err: gio.NewNilOutput(), CWD: cwd, Scope: root},
-				Name:    fmt.Sprintf("t%d", i), Namespaces: ns, Sandbox: fmt.Sprintf("probe:%d", i), Lock: maps[i],
+				Name:    fmt.Sprintf("t%d", i), Namespaces: ns, Sandbox: fmt.Sprintf("probe:%d", i), Lock: maps[i], Wait: waits[i],
 			}); err != nil {
 				subErr = err.Error()
 			}
+		}
+		if outside != nil {
+			time.Sleep(2 * time.Millisecond) // let both goroutines reach their first blocking point
+			outside.Unlock()
 		}
 		done := make(chan error, 1)
 		go func() { done <- mgr.Wait() }()
 		select {
 		case <-done:
-		case <-time.After(20 * time.Second):
-			o.Fail("no_deadlock", "tasks submitted through the pipeline runner with lock maps did not all finish within 20 s", "runner-hang", desc)
+		case <-time.After(15 * time.Second):
+			o.Fail("no_deadlock", "tasks submitted through the pipeline runner with lock maps and wait lists did not all finish within 15 s", "runner-hang", desc)
 			o.CountEval(fmt.Sprintf("rl:%d", round), true)
 			return
 		}
